@@ -535,6 +535,66 @@ func runC10(c *Ctx) {
 	// capture in the move list is then refused)
 	r.Rule("R10-decode", "fen.Decode wires every field of the text into the position and the values it returns (placement, side, castling rights, e.p. square, half-move clock, full-move number, each from its own field), and Engine.Reset / NewBoard pass them on in order (rule of C14)", 6)
 	c.guard("R10-decode", func() { r.WithAlias("R14-wiring", "R10-decode", func() { c14Wiring(c) }) })
+	// a move list may run past a position the board adjudicates as a claimable draw (third repetition, 100 plies,
+	// bare material): PushMove deliberately plays on. Engine.Move must not refuse on the game result either -
+	// whether a move of the command is applied depends on the text and on the move generator / PushMove only
+	r.Rule("R10-accept", "no branch of Engine.Move (or of the helpers it is split into) is decided by the board's game result: the moves of a position command are applied also after a claimable draw", 1)
+	c.guard("R10-accept", func() { c10Accept(c) })
+}
+
+func c10Accept(c *Ctx) {
+	r := c.R
+	mv := c.fn("R10-accept", "pkg/engine", "Engine", "Move")
+	resFn := c.find("pkg/board", "Board", "Result")
+	if mv == nil {
+		return
+	}
+	if resFn == nil {
+		r.Undecided("R10-accept", "anchor:board.Board.Result", "", "", "result getter not found")
+		return
+	}
+	bad := ""
+	for _, f := range funcFamily(mv) {
+		for _, b := range f.Blocks {
+			for _, ins := range b.Instrs {
+				call, ok := ins.(*ssa.Call)
+				if !ok || call.Call.StaticCallee() != resFn {
+					continue
+				}
+				// forward slice of the result: does it decide a branch?
+				seen := map[ssa.Value]bool{}
+				var decides func(v ssa.Value, depth int) bool
+				decides = func(v ssa.Value, depth int) bool {
+					if v == nil || seen[v] || depth > 8 || v.Referrers() == nil {
+						return false
+					}
+					seen[v] = true
+					for _, ref := range *v.Referrers() {
+						switch x := ref.(type) {
+						case *ssa.If:
+							return true
+						case *ssa.Store:
+							// spilled to a local: follow the loads of that cell
+							if al, ok := x.Addr.(*ssa.Alloc); ok && x.Val == v {
+								if decides(al, depth+1) {
+									return true
+								}
+							}
+						case ssa.Value:
+							if decides(x, depth+1) {
+								return true
+							}
+						}
+					}
+					return false
+				}
+				if decides(call, 0) {
+					bad = joinNonEmpty(bad, fmt.Sprintf("%s branches on Board.Result() read at %s: after a third repetition, 100 plies without progress or bare material the remaining moves of a position command are refused and the engine stays behind the game the command describes", c.P.FuncName(f), c.pos(call.Pos())))
+				}
+			}
+		}
+	}
+	r.Check(bad == "", "R10-accept", "Engine.Move does not refuse moves on account of the game result", c.pos(mv.Pos()), "", bad)
 }
 
 // mustStoredBefore: the keys for which a store has happened on EVERY path from the function's
